@@ -480,6 +480,65 @@ def run(run):
                 run.undecided("R3", "cwe243|decision-table", "a warning seems reachable for %s, but the successor test of the chroot block was not recognised" % ([w[0] for w in extra[:2]],), F.loc(fn["body"]))
             else:
                 run.holds("R3", "cwe243|decision-table", "16 assignments", F.loc(fn["body"]))
+        # sub_calls_chdir_and_priviledge_dropping_func = calls(chdir) && calls(any priv): two existence tests over the blocks of the
+        # function that must not depend on each other (the order in which blocks are stored is not the execution order).
+        # Positive evidence of a dependence: the per-block test of one kind runs only under a condition that reads a flag set by
+        # the other kind's test in the same loop, or only on blocks where the other kind's test failed.
+        fsub = F.find_fns(name="sub_calls_chdir_and_priviledge_dropping_func")
+        fsub = [g for g in fsub if g.get("dk") != "Closure"]
+        key2 = "cwe243|both-calls-independent-of-block-order"
+        if len(fsub) != 1:
+            run.undecided("R3", key2, "sub_calls_chdir_and_priviledge_dropping_func not found", F.loc(fn["body"]))
+        else:
+            g = fsub[0]
+            chdir_ids = {b[0] for p_ in g["params"] if p_.get("p") for b in T.pat_bindings(p_["p"]) if "chdir" in b[1]}
+
+            def kind_of(call):
+                if len(call.get("a", [])) < 2:
+                    return None
+                return "chdir" if T.root_var_id(call["a"][1]) in chdir_ids else "priv"
+
+            def tests_in(e):
+                out = set()
+                for y in T.walk(e):
+                    if T.is_call(y, "blk_calls_tid"):
+                        out.add(kind_of(y))
+                    if y.get("k") == "Closure":
+                        c_ = F.by_path.get(y.get("d"))
+                        if c_ is not None:
+                            out |= tests_in(c_["body"])
+                return out - {None}
+            dependent = []
+            for (ln, pat, it, lb) in T.for_loops(g["body"]):
+                # flags assigned in this loop, by the kind of test that guards the assignment
+                flag_kind = {}
+                for x, conds in T.paths_to(lb, lambda y: y.get("k") == "Assign" and T.root_var_id(y["l"]) is not None):
+                    ks = set()
+                    for cd in conds:
+                        if cd[0] == "if" and cd[2] is True:
+                            ks |= tests_in(cd[1])
+                    for k_ in ks:
+                        flag_kind.setdefault(T.root_var_id(x["l"]), set()).add(k_)
+                def is_test_site(y):
+                    return T.is_call(y, "blk_calls_tid") or (y.get("k") == "Closure" and bool(tests_in(y)))
+                for x, conds in T.paths_to(lb, is_test_site):
+                    k2s = tests_in(x) if x.get("k") == "Closure" else {kind_of(x)}
+                    if len(k2s) != 1:
+                        continue
+                    k2 = next(iter(k2s))
+                    for cd in conds:
+                        if cd[0] != "if":
+                            continue
+                        reads = {y["id"] for y in T.walk(cd[1]) if y.get("k") in ("Var", "Upvar")}
+                        for fid, ks in flag_kind.items():
+                            if fid in reads and cd[2] is True and any(k1 != k2 for k1 in ks) and not any(x is y for y in T.walk(cd[1])):
+                                dependent.append((k2, "runs only after a block with a %s call was seen" % "/".join(sorted(ks - {k2}))))
+                        if cd[2] is False and (tests_in(cd[1]) - {k2}):
+                            dependent.append((k2, "runs only on blocks without a %s call" % "/".join(sorted(tests_in(cd[1]) - {k2}))))
+            if dependent:
+                run.violated("R3", key2, "the function must call chdir AND a privilege-dropping function, in any block order; the %s test %s" % dependent[0], F.loc(g["body"]))
+            else:
+                run.holds("R3", key2, "", F.loc(g["body"]))
         # sub_calls_chdir_and_priviledge_dropping_func = calls(chdir) && calls(any priv)
         # the reachability query arguments: (source=chroot, sink=chdir)
         cs = T.calls(fn["body"], name="is_sink_call_reachable_from_source_call")
